@@ -12,6 +12,7 @@ import collections
 import hashlib
 import os
 import random
+import re
 import shutil
 
 import common
@@ -20,13 +21,13 @@ import gr2
 import harness
 from checks.c14 import texts_for
 
-THEOREMS = ["Grc.Ver.bump_ge", "Grc.Ver.bump_reach", "Grc.Ver.version_ge_requested", "Grc.Ver.declared_version_conforms",
+THEOREMS = ["Grc.Ver.bump_ge", "Grc.Ver.bump_reach", "Grc.Ver.version_ge_requested", "Grc.Ver.declared_version_conforms", "Grc.Ver.afterPassConstraints_ok", "Grc.Ver.afterPassConstraints_ge",
             "Grc.Ver.glat_gloc_switch_together"]
 REQ = {"": "default", "-v2": 0x00020000, "-v3": 0x00030000, "-v4": 0x00040000, "-v5": 0x00050000}
 
 
-def shape_key(face, t):
-    s = face.shape(t)
+def shape_key(face, t, feats=None):
+    s = face.shape(t, feats=feats)
     return None if s is None else [(x["gid"], x["before"], x["after"], round(x["x"], 2)) for x in s]
 
 
@@ -41,9 +42,25 @@ def run(tier, seed, replay=None):
     distinct = set()
     samples = []
     trng = random.Random(seed + 1515)
-    for name, prog in cases:
+    FEAT = ('table(feature) fz { id = 1234; name.1033 = string("Z"); default = 0; settings { off { value = 0; name.1033 = string("off"); } '
+            'on { value = 1; name.1033 = string("on"); } } } endtable;\n')
+    for ci, (name, prog) in enumerate(cases):
         d = os.path.join(work, name)
         os.makedirs(d)
+        feature_gated = (ci % 3 == 1)
+        if feature_gated:
+            # every second pass is wrapped in a pass-level `if` on a feature (pass constraints exist from Silf 3.1; for
+            # older requests the compiler moves the test into each rule) - shaping must still agree across all builds
+            text = prog.gdl()
+            k = [0]
+
+            def wrap(m):
+                k[0] += 1
+                return ("if (fz == %d) " % (k[0] % 2)) + m.group(0)
+            text = re.sub(r"pass\(\d+\)", wrap, text)
+            text = text.replace("endpass;", "endpass; endif;")
+            text = text.replace("table(sub)", FEAT + "table(sub)", 1)
+            prog.raw_gdl = text
         gen.write_case(prog, d)
         fonts = {}
         for v in REQ:
@@ -95,13 +112,15 @@ def run(tier, seed, replay=None):
             silfs[k] = s
             _o, v, c, p = fonts[k]
             sp = 0
-            mv = int(common.run_grcv(["silfversion %s %d 0 %d %d" % (REQ[v], int(c), int(not p), sp)])[0])
+            mv = int(common.run_grcv(["silfversion2 %s %d %d %d 0 %d %d" % (REQ[v], int(bool(v)), int(feature_gated), int(c), int(not p), sp)])[0])
             stats["versions_checked"] += 1
             if s["version"] != mv:
                 problems.append("build '%s' declares Silf version %#x, ladder model says %#x" % (k, s["version"], mv))
             distinct.add((k, s["version"]))
         # (c) compressed = plain
         for v in REQ:
+            if feature_gated and v in ("-v2", "-v3"):
+                continue   # an explicit request below 3.1 moves the pass constraints into the rules: no plain twin at 5.0
             for p in ("", "-p"):
                 kc = " ".join(x for x in (v, "-c", p) if x)
                 kp = " ".join(x for x in ("-v5", p) if x)
@@ -119,11 +138,12 @@ def run(tier, seed, replay=None):
         # (d) shaping identical across builds
         faces = {k: gr2.Face(os.path.join(d, fonts[k][0])) for k in keys}
         if all(f.ok() for f in faces.values()):
-            for t in texts_for(prog, trng, 40 if tier == "quick" else 150):
-                ref = shape_key(faces["default"], t)
+            for ti, t in enumerate(texts_for(prog, trng, 40 if tier == "quick" else 150)):
+                fv = {1234: ti % 2} if feature_gated else None
+                ref = shape_key(faces["default"], t, fv)
                 stats["texts"] += 1
                 for k in keys:
-                    got = shape_key(faces[k], t)
+                    got = shape_key(faces[k], t, fv)
                     if got != ref:
                         problems.append("text %s shapes differently with build '%s' (%s) than with the default build (%s)" % (t, k, got, ref))
                         break
